@@ -89,6 +89,10 @@ def main(tier):
         c.finish(rule="build failed")
     vh, drv = vlib.VH["debug"], vlib.DRIVER
     quick = tier == "quick"
+    # the block phase: Blocks_line_invariance / _crlf / _cr / _final_newline / _nul (Props/Blocks.v) carry the
+    # line-splitter theorems through process_line to the block tree; the model they talk about is tied here
+    from checks import layerc
+    layerc.blocks(c, tier, 0.3 if quick else 0.15)
 
     # ================================================================== correspondence feed.lines
     exh = exhaustive(6 if quick else 7)
